@@ -264,6 +264,8 @@ pub struct ReadOutcome {
     pub num_signatures: usize,
     pub sigs_all_attributed: bool,
     pub armor_headers: Option<pgp::armor::Headers>,
+    /// with `opts` bit 2: what three more calls after the first error produced (octets, clean end seen)
+    pub after_error: Option<(usize, bool)>,
 }
 
 impl Default for ReadOutcome {
@@ -280,6 +282,7 @@ impl Default for ReadOutcome {
             num_signatures: 0,
             sigs_all_attributed: false,
             armor_headers: None,
+            after_error: None,
         }
     }
 }
@@ -299,7 +302,8 @@ pub struct ReadSpec<'a> {
     pub streaming_v1: bool,
     /// SEIPDv1 default mode with an explicit `max_message_size`
     pub v1_limit: Option<usize>,
-    /// decryption options: bit 0 = enable_gnupg_aead, bit 1 = enable_legacy (SED)
+    /// decryption options: bit 0 = enable_gnupg_aead, bit 1 = enable_legacy (SED);
+    /// bit 2: a consumer that calls the reader again after an error (read, fill_buf, read_to_end)
     pub opts: u8,
 }
 
@@ -342,7 +346,7 @@ pub fn read_message<R: BufRead + std::fmt::Debug + Send>(input: R, spec: &ReadSp
                 } else if let Some(l) = spec.v1_limit {
                     options = options.set_seipdv1_read_mode(pgp::types::Seipdv1ReadMode::CheckFirst { max_message_size: l });
                 }
-                let plain_ring = spec.opts == 0 && !spec.streaming_v1 && spec.v1_limit.is_none();
+                let plain_ring = spec.opts & 3 == 0 && !spec.streaming_v1 && spec.v1_limit.is_none();
                 match opener {
                     // the convenience entry points when no option is needed (they are what users call)
                     Opener::SessionKey(sk) if plain_ring => msg.decrypt_with_session_key(sk.clone()),
@@ -412,6 +416,34 @@ pub fn read_message<R: BufRead + std::fmt::Debug + Send>(input: R, spec: &ReadSp
         Err(e) => {
             out.end = Err(format!("{:?}: {e}", e.kind()));
             out.stage = "read";
+            if spec.opts & 4 != 0 {
+                // a caller is free to call again after an error: the reader must answer (anything), not panic
+                let mut n = 0usize;
+                let mut clean = false;
+                let mut buf = [0u8; 64];
+                match msg.read(&mut buf) {
+                    Ok(0) => clean = true,
+                    Ok(k) => n += k,
+                    Err(_) => {}
+                }
+                match msg.fill_buf().map(|b| b.len()) {
+                    Ok(0) => clean = true,
+                    Ok(k) => {
+                        n += k;
+                        msg.consume(k);
+                    }
+                    Err(_) => {}
+                }
+                let mut rest = Vec::new();
+                match (&mut msg).take(1 << 16).read_to_end(&mut rest) {
+                    Ok(k) => {
+                        n += k;
+                        clean |= k < (1 << 16);
+                    }
+                    Err(_) => n += rest.len(),
+                }
+                out.after_error = Some((n, clean));
+            }
             return out;
         }
     }
